@@ -250,6 +250,27 @@ class _DeadWorker(object):
 
 
 _EXTRA_TQS = []
+_PATCHES = []    # (object, attribute, original value): undone at the next reset
+
+
+def patch(obj, attr, value):
+  """Replace an attribute for the current execution only (a state seam a scenario asks for); reset() undoes it."""
+  _PATCHES.append((obj, attr, obj.__dict__[attr] if attr in getattr(obj, '__dict__', {}) else getattr(obj, attr)))
+  setattr(obj, attr, value)
+
+
+def tag_jump(after, to):
+  """State seam for the mux tag pool: once tag `after` has been handed out from the counter, the next tag that comes from
+  the counter is `to`.  Stands for a connection on which the tags in between are held by earlier requests that were never
+  answered (timed-out requests keep their tag until the peer acknowledges the discard), without issuing 65 000 requests."""
+  import scales.mux.sink as ms
+  orig = ms.TagPool.__dict__['get']
+
+  def get(self):
+    if not self._set and self._next == after:
+      self._next = to - 1
+    return orig(self)
+  patch(ms.TagPool, 'get', get)
 
 
 def track_timer_queue(q):
@@ -266,6 +287,9 @@ def reset():
   lp.monitor = None
   set_chooser(None)
   _reset_shims()
+  while _PATCHES:
+    obj, attr, old = _PATCHES.pop()
+    setattr(obj, attr, old)
   # kill everything that ever ran on the loop, let the kills unwind, then drop what is left
   for _ in range(4):
     gs = [g for g in lp._greenlets if not g.dead]
